@@ -28,7 +28,8 @@ thread_local! {
 enum PKind {
     Point,
     Yield,
-    Acquire(&'static str),
+    /// about to block on the lock with this identity (exclusive, or the read side of a RwLock)
+    Acquire(usize, bool),
 }
 
 #[derive(Clone, Copy, Debug, PartialEq, Eq)]
@@ -53,7 +54,8 @@ pub struct Decision {
 struct CtlState {
     status: Vec<Th>,
     running: Option<usize>,
-    locks: BTreeMap<&'static str, usize>,
+    /// lock identity -> (held exclusively, holders)
+    locks: BTreeMap<usize, (bool, Vec<usize>)>,
     prefix: Vec<u8>,
     decisions: Vec<Decision>,
     points: usize,
@@ -95,7 +97,10 @@ impl Ctl {
             for (i, t) in st.status.iter().enumerate() {
                 if let Th::Parked(_, k) = t {
                     let ok = match k {
-                        PKind::Acquire(l) => st.locks.get(l).map_or(true, |h| *h == i),
+                        PKind::Acquire(l, exclusive) => match st.locks.get(l) {
+                            None => true,
+                            Some((held_exclusively, holders)) => holders.is_empty() || (!*held_exclusively && !*exclusive),
+                        },
                         PKind::Yield => want_yield,
                         PKind::Point => true,
                     };
@@ -189,8 +194,10 @@ impl Ctl {
             }
             st = self.cv.wait(st).unwrap();
         }
-        if let PKind::Acquire(l) = kind {
-            st.locks.insert(l, me);
+        if let PKind::Acquire(l, exclusive) = kind {
+            let e = st.locks.entry(l).or_insert((exclusive, vec![]));
+            e.0 = exclusive;
+            e.1.push(me);
         }
         st.status[me] = Th::Running;
     }
@@ -215,9 +222,8 @@ impl Ctl {
     fn finish(&self, me: usize) {
         let mut st = self.m.lock().unwrap();
         st.status[me] = Th::Finished;
-        let held: Vec<_> = st.locks.iter().filter(|(_, h)| **h == me).map(|(l, _)| *l).collect();
-        for l in held {
-            st.locks.remove(l);
+        for (_, (_, holders)) in st.locks.iter_mut() {
+            holders.retain(|h| *h != me);
         }
         if st.abort.is_none() {
             if st.running == Some(me) || st.running.is_none() {
@@ -254,14 +260,30 @@ impl Controller for Ctl {
         };
         self.park(name, if free { PKind::Point } else { PKind::Yield });
     }
-    fn lock_acquire(&self, name: &'static str) {
-        self.park(name, PKind::Acquire(name));
+    fn lock_acquire(&self, lock: usize, exclusive: bool, what: &'static str) {
+        self.park(what, PKind::Acquire(lock, exclusive));
     }
-    fn lock_release(&self, name: &'static str) {
+    fn lock_taken(&self, lock: usize, exclusive: bool) {
+        // a successful try_lock: no waiting, the lock is simply held from now on
+        let me = ME.with(Cell::get);
+        if me == usize::MAX {
+            return;
+        }
+        let mut st = self.m.lock().unwrap();
+        let e = st.locks.entry(lock).or_insert((exclusive, vec![]));
+        e.0 = exclusive;
+        e.1.push(me);
+    }
+    fn lock_release(&self, lock: usize, _exclusive: bool) {
         let me = ME.with(Cell::get);
         let mut st = self.m.lock().unwrap();
-        if st.locks.get(name) == Some(&me) {
-            st.locks.remove(name);
+        if let Some((_, holders)) = st.locks.get_mut(&lock) {
+            if let Some(pos) = holders.iter().position(|h| *h == me) {
+                holders.remove(pos);
+            }
+            if holders.is_empty() {
+                st.locks.remove(&lock);
+            }
         }
     }
 }
